@@ -93,6 +93,16 @@ def step (st : St) (op impl : List String) : St × Verdict :=
       let st := if hit > 0 || st.buffered.contains s then st else { st with buffered := st.buffered ++ [s] }
       ({ st with subscriberNacks := s :: st.subscriberNacks }, cmp (toString hit) impl)
     | none => (st, .badop "getpacket")
+  | "getpackets" :: seqs =>
+    match seqs.mapM nat? with
+    | some ss =>
+      let (st, hits) := ss.foldl (fun (acc : St × List String) s =>
+        let (st, hits) := acc
+        let hit := match Cache.get st.ring s with | some e => e.bytes.length | none => 0
+        let st := if hit > 0 || st.buffered.contains s then st else { st with buffered := st.buffered ++ [s] }
+        ({ st with subscriberNacks := s :: st.subscriberNacks }, hits ++ [toString hit])) (st, [])
+      (st, cmp (" ".intercalate hits) impl)
+    | none => (st, .badop "getpackets")
   | [kind, _] =>
     if kind ≠ "nacks" && kind ≠ "nacksfinal" then
       (st, .badop "unknown op")
@@ -111,19 +121,17 @@ def step (st : St) (op impl : List String) : St × Verdict :=
       else .mismatch (" ".intercalate ((toString model.length) :: model.map toString) ++ " (or a sub-multiset)")
     let ov : Option String := match impl.mapM nat? with
       | some (_ :: xs) =>
-        match xs.find? (fun s => st.snap2.contains s) with
-        | some s =>
-          if st.subscriberNacks.contains s then
-            some s!"C06: retransmission of {s} requested although it was received (a subscriber's NACK for a packet no longer in the cache, forwarded upstream by nackWriter)"
-          else some s!"C06: retransmission of {s} requested although it was received"
-        | none =>
-          match st.newest with
-          | some n =>
-            match xs.find? (fun s => (s = n || sub16 s n < 32768) && !st.received.contains s) with
-            | some s => some s!"C06: retransmission of {s} requested, which is at or beyond the newest packet {n}"
-            | none =>
-              if xs.eraseDups.length ≠ xs.length then some "C06: a packet was requested twice" else none
+        -- (the rule that coincides with a known finding comes last, so that it cannot mask another violation on the same line)
+        let beyond : Option String := match st.newest with
+          | some n => (xs.find? (fun s => (s = n || sub16 s n < 32768) && !st.received.contains s)).map fun s =>
+              s!"C06: retransmission of {s} requested, which is at or beyond the newest packet {n}"
           | none => none
+        let recvOwn : Option String := (xs.find? (fun s => st.snap2.contains s && !st.subscriberNacks.contains s)).map fun s =>
+          s!"C06: retransmission of {s} requested although it was received"
+        let twice : Option String := if st.newest.isSome && xs.eraseDups.length ≠ xs.length then some "C06: a packet was requested twice" else none
+        let recvSub : Option String := (xs.find? (fun s => st.snap2.contains s && st.subscriberNacks.contains s)).map fun s =>
+          s!"C06: retransmission of {s} requested although it was received (a subscriber's NACK for a packet no longer in the cache, forwarded upstream by nackWriter)"
+        beyond.orElse fun _ => recvOwn.orElse fun _ => twice.orElse fun _ => recvSub
       | _ => some "bad nacks result"
     let nk := match impl.mapM nat? with | some (_ :: xs) => xs | _ => []
     ({ st with pending := if final then [] else leftover, snap2 := st.snap1, snap1 := st.received,
